@@ -246,14 +246,32 @@ def run_ensemble_maps(rng, obs):
     obs.desc = {'ensemble': which, 'nested': nested, 'dim': dim, 'cost': spec, 'box': box, 'npts': npts, 'maxiter': maxiter}
     mons = rng.choice(['none', 'none', 'both', 'both', 'evalmon', 'stepmon'])   # copy-semantics maps splice member monitors back: which monitors exist matters
     restart = rng.random() < 0.4                                                # a second Solve with raised limits on the same ensemble
-    obs.desc.update(monitors=mons, restart=restart)
+    instance = rng.choice([None, None, None, 'plain', 'tight'])
+    if instance: restart = False          # (limits of a configured instance are its own: the restart protocol of this case raises the ensemble's)
+    if instance == 'tight' and spec[0] not in ('plateau', 'step'):
+        # an optimum on or beyond a face of the box, so that the treatment of the ranges matters
+        j = rng.randrange(dim); box = dict(box, lo=list(box['lo']), hi=list(box['hi']))
+        c = spec[1][j] if len(spec) > 1 and isinstance(spec[1], list) and len(spec[1]) > j and isinstance(spec[1][j], (int, float)) else 1.0
+        box['hi'][j] = c - rng.choice([0.0, 0.5]); box['lo'][j] = box['hi'][j] - 4.0
+    obs.desc.update(monitors=mons, restart=restart, nested_instance=instance, box=box)
     def cost(x):
         return raw([float(v) for v in x])
     def run(mapname, zoo, step=False):
         from mystic.monitors import Monitor
         random.seed(obs.seed); np.random.seed(obs.seed % (2 ** 32))
         s = LatticeSolver(dim, nbins=npts) if which == 'lattice' else BuckshotSolver(dim, npts=npts)
-        s.SetNestedSolver(NelderMeadSimplexSolver if nested == 'nm' else PowellDirectionalSolver)
+        cls_ = NelderMeadSimplexSolver if nested == 'nm' else PowellDirectionalSolver
+        if instance:
+            # the nested solver handed over as a CONFIGURED INSTANCE: its own settings (here: how it treats the ranges) are its business,
+            # in every mode and under every map alike
+            n_ = cls_(dim)
+            n_.SetStrictRanges(list(box['lo']), list(box['hi']), **({} if instance == 'plain' else {'tight': True}))
+            n_.SetEvaluationLimits(maxiter, 4000)
+            n_.SetTermination(NCOG(1e-4, 2))
+            n_.SetObjective(cost)
+            s.SetNestedSolver(n_)
+        else:
+            s.SetNestedSolver(cls_)
         s.SetStrictRanges(list(box['lo']), list(box['hi']))
         s.SetEvaluationLimits(maxiter, 4000)
         if mapname != 'default': s.SetMapper(getattr(zoo, mapname))
